@@ -187,14 +187,14 @@ Proof.
     destruct Hinv as [(mid & Hs & Hm) Hh Hpay Hout Hph].
     assert (Hne : early_phase (phase s) = true -> False) by (intros He; specialize (Hph He); congruence).
     rewrite Ew in Hm. cbn in Hm. pose proof (Hh o Ew) as Hshape.
-    rewrite stamp_o_len.
-    assert (Hout' : forall o', In o' (out s ++ [stamp_o cfg (version s) o]) -> own_shape o').
+    cbv zeta.
+    assert (Hout' : forall o', In o' (out s ++ [o]) -> own_shape o').
     { intros o' Hin. apply in_app_or in Hin. destruct Hin as [Hin|[Hin|[]]]; [now apply Hout|].
-      subst o'. intros Hown. rewrite stamp_o_own in Hown. rewrite stamp_o_typ, stamp_o_len. auto. }
+      subst o'. intros Hown. auto. }
     assert (Haf : forall w, w = WParked \/ w = WTop -> mid_ok w [] /\ (forall o0, w = WHolding o0 -> own_shape o0) /\
                   (forall o0, w = WPayload o0 -> is_own o0 = false) /\ (w = WNone -> False)).
     { intros w [->| ->]; repeat split; try (intros; discriminate). }
-    assert (Hafr : after_frame (stamp_o cfg (version s) o) = WParked \/ after_frame (stamp_o cfg (version s) o) = WTop).
+    assert (Hafr : after_frame (o) = WParked \/ after_frame (o) = WTop).
     { unfold after_frame. destruct (f_typ _ =? _); auto. }
     destruct (is_own o) eqn:Eown.
     + (* an acknowledgement: header-only *)
@@ -203,8 +203,8 @@ Proof.
       constructor; st_simpl_goal; try assumption.
       * exists []. split; [|exact A].
         rewrite (ka_enqueued_same s) by reflexivity.
-        rewrite (acked_app s (stamp_o cfg (version s) o)) by reflexivity.
-        rewrite stamp_o_own, Eown, stamp_o_id. rewrite Hs. now rewrite <- !app_assoc.
+        rewrite (acked_app s (o)) by reflexivity.
+        rewrite Eown. rewrite Hs. now rewrite <- !app_assoc.
       * intros He. exfalso. auto.
     + subst mid.
       destruct (f_len (o_frame o) =? 0).
@@ -212,13 +212,13 @@ Proof.
         constructor; st_simpl_goal; try assumption.
         -- exists []. split; [|exact A].
            rewrite (ka_enqueued_same s) by reflexivity.
-           rewrite (acked_app s (stamp_o cfg (version s) o)) by reflexivity.
-           rewrite stamp_o_own, Eown, app_nil_r. exact Hs.
+           rewrite (acked_app s (o)) by reflexivity.
+           rewrite Eown, app_nil_r. exact Hs.
         -- intros He. exfalso. auto.
       * constructor; st_simpl_goal; try (intros; discriminate); try assumption.
         -- exists []. split; [|reflexivity].
            rewrite (ka_enqueued_same s) by reflexivity. rewrite (acked_same s) by reflexivity. exact Hs.
-        -- intros o' Ho. inversion Ho; subst. rewrite stamp_o_own. assumption.
+        -- intros o' Ho. inversion Ho; subst. assumption.
         -- intros He. exfalso. auto.
   - (* WWritePay *) unfold step_wwritepay.
     destruct (writer s) as [| | | |o| | |] eqn:Ew; try assumption.
